@@ -298,7 +298,55 @@ def build():
         call_ghost={'BaseWorker.call': {'req_usp': 'usp0', 'req_gsp': 'usp0', 'req_rc': 'usp0', 'req_dc': 'usp0', 'req_sc': 'usp0', 'kind': '2', 'req_state': 'state0'},
                     'PoolT._acquire_worker': {'d1': 'dbname0'}, 'PoolT._release_worker': {'d1': 'dbname0'}})
     w._wreq, w._holds, w._unchanged = WREQ, HOLDS, UNCHANGED
+    build_mt(w)
     return w
+
+def build_mt(w):
+    """multi-tenant pool (MultiTenantPool / MultiTenantWorker): server side.  Belief about worker w and tenant c: w._cache[c] (a TenantSchema);
+    the acknowledgement callback must record exactly what was transmitted, `_compute_compile_preargs` must transmit every part of the
+    request that differs (by identity) from the belief and everything the worker cannot have."""
+    w.refclass('TS', {'client_id': 'Obj', 'dbs': 'Map[Obj,PDS]', 'global_schema_pickle': 'Obj', 'system_config': 'Obj'}, POOL, 'TenantSchema')
+    w.refclass('MTW', {'_cache': 'Map[Obj,TS]', '_invalidated_clients': 'Seq[Obj]', '_last_used_by_client': 'Map[Obj,float]',
+                       'current_client_id': 'Opt[Obj]', '_manager': 'PoolT'}, POOL, 'MultiTenantWorker')
+    w.builtin_alias['collections.OrderedDict'] = 'dict'
+    w.trusted.append('MultiTenantWorker._cache (an OrderedDict) is modelled as a finite map: its order only decides which tenant maybe_invalidate_last evicts')
+    TSF = ['TS.dbs', 'TS.global_schema_pickle', 'TS.system_config', 'TS.client_id']
+    w.contract(POOL, 'MultiTenantWorker.set_tenant_schema', params={'self': 'MTW', 'client_id': 'Obj', 'tenant_schema': 'TS'}, returns='none',
+        modifies=['MTW._cache', 'MTW._last_used_by_client'],
+        ensures=['client_id in self._cache and self._cache[client_id] == tenant_schema', 'map_same_except(self._cache, old(self._cache), client_id)',
+                 'heap_same_except("MTW._cache", self)'])
+    w.contract(POOL, 'MultiTenantWorker.flush_invalidation', params={'self': 'MTW'}, returns='none',
+        modifies=['MTW._cache', 'MTW._last_used_by_client', 'MTW._invalidated_clients'],
+        ensures=['len(self._invalidated_clients) == 0',
+                 # exactly the invalidated tenants are forgotten
+                 'forall(Obj, lambda c: (c in self._cache) == ((c in old(self._cache)) and not exists(0, len(old(self._invalidated_clients)), lambda j: old(self._invalidated_clients)[j] == c)))',
+                 'forall(Obj, lambda c: implies(c in self._cache, self._cache[c] == old(self._cache)[c]))',
+                 'heap_same_except("MTW._cache", self) and heap_same_except("MTW._invalidated_clients", self)'],
+        loops={0: dict(fingerprint='for client_id in client_ids', index='i', invariant=[
+                 'forall(Obj, lambda c: (c in self._cache) == ((c in old(self._cache)) and not exists(0, i, lambda j: client_ids[j] == c)))',
+                 'forall(Obj, lambda c: implies(c in self._cache, self._cache[c] == old(self._cache)[c]))',
+                 'len(self._invalidated_clients) == 0', 'heap_same_except("MTW._cache", self) and heap_same_except("MTW._invalidated_clients", self)'])})
+    CBQ = 'MultiTenantPool._compute_compile_preargs.<locals>.sync_worker_state_cb'
+    OPTS = {'user_schema_pickle': 'Opt[Obj]', 'global_schema_pickle': 'Opt[Obj]', 'reflection_cache': 'Opt[Obj]', 'database_config': 'Opt[Obj]', 'instance_config': 'Opt[Obj]'}
+    P = {'worker': 'MTW', 'client_id': 'Obj', 'dbname': 'Obj'}; P.update(OPTS)
+    KNOWN = 'client_id in worker._cache'
+    INVAL = 'exists(0, len(old(worker._invalidated_clients)), lambda j: old(worker._invalidated_clients)[j] == client_id)'
+    def rec(comp, fld):
+        # the belief after the acknowledgement: what was transmitted, else what was believed before
+        return ('implies(not (%s), worker._cache[client_id].%s == (some(%s) if not is_none(%s) else old(worker._cache[client_id].%s)))'
+                % (INVAL, fld, comp, comp, fld))
+    w.contract(POOL, CBQ, params=P,
+        requires=['implies(not (%s), %s)' % (KNOWN, ' and '.join('not is_none(%s)' % c for c in OPTS)),
+                  'implies(%s and not (dbname in worker._cache[client_id].dbs), not is_none(user_schema_pickle) and not is_none(reflection_cache) and not is_none(database_config))' % KNOWN,
+                  'implies(not is_none(user_schema_pickle), bool(some(user_schema_pickle)))',
+                  'implies(%s and dbname in worker._cache[client_id].dbs, bool(worker._cache[client_id].dbs[dbname].user_schema_pickle))' % KNOWN],
+        modifies=['MTW._cache', 'MTW._last_used_by_client', 'MTW._invalidated_clients', '$alloc'] + TSF,
+        ensures=['implies(not (%s), client_id in worker._cache and dbname in worker._cache[client_id].dbs)' % INVAL,
+                 rec('user_schema_pickle', 'dbs[dbname].user_schema_pickle'), rec('reflection_cache', 'dbs[dbname].reflection_cache'),
+                 rec('database_config', 'dbs[dbname].database_config'), rec('global_schema_pickle', 'global_schema_pickle'), rec('instance_config', 'system_config'),
+                 # the tenant's other databases keep their recorded state
+                 'implies(not (%s) and old(%s), map_same_except(worker._cache[client_id].dbs, old(worker._cache[client_id].dbs), dbname))' % (INVAL, KNOWN),
+                 'len(worker._invalidated_clients) == 0'])
 
 def configure(vf):
     pass
